@@ -4,7 +4,7 @@ under, plus the extra checks named in EXTRA) and every sensitivity patch with th
 /repo per patch) and write evidence/seeded.json: caught or missed, violating runs, classes. Exit 1 if one is missed."""
 import os, sys, json, subprocess, glob, time, re
 VERIF = os.path.dirname(os.path.dirname(os.path.abspath(__file__)))
-EXTRA = {'C02-agent6': ['C10'], 'C05-agent5': ['C04'], 'C08-agent6': ['C10'], 'C08-agent4': ['C09'], 'C02-agent2': ['C09'], 'C13-agent2': ['C14'], 'C02-agent4': ['C09']}
+EXTRA = {'C02-agent6': ['C10'], 'C05-agent7': ['C06'], 'C05-agent5': ['C04'], 'C08-agent6': ['C10'], 'C08-agent4': ['C09'], 'C02-agent2': ['C09'], 'C13-agent2': ['C14'], 'C02-agent4': ['C09']}
 def run(patch, pids):
     r = subprocess.run([sys.executable, os.path.join(VERIF, 'tools', 'mutant.py'), patch] + pids, stdout=subprocess.PIPE, stderr=subprocess.STDOUT, text=True)
     res = {}
